@@ -53,6 +53,7 @@ type scenario struct {
 	vers             uint16 // TLS clients: the only version offered (0 = default range)
 	stdCert          int    // TLS server certificate: 0 ECDSA, 1 RSA
 	extras           bool   // TLS: stapled OCSP response and SCTs on the server certificate, ALPN on both sides
+	noDyn            bool   // DynamicRecordSizingDisabled on the library endpoints
 }
 
 func ex2(ex, base string) string { return base + ex }
@@ -61,6 +62,9 @@ func (s scenario) String() string {
 	ex := ""
 	if s.extras {
 		ex = " extras(OCSP staple, SCTs, ALPN)"
+	}
+	if s.noDyn {
+		ex += " DynamicRecordSizingDisabled"
 	}
 	return ex2(ex, fmt.Sprintf("server=%s client=%s cSuites=%04x sSuites=%04x preferServer=%v clientAuth=%d clientCert=%d callbacks=%v ticketsOff=%v vers=%04x stdCert=%d",
 		modeNames[s.mode], cliNames[s.client], s.cSuites, s.sSuites, s.preferServer, s.auth, s.clientCert, s.callbacks, s.ticketsOff, s.vers, s.stdCert))
@@ -180,7 +184,7 @@ func (k *keyLog) master() []byte {
 }
 
 func serverConfig(s scenario, p *tlsk.PKI) *gmtls.Config {
-	cfg := &gmtls.Config{Time: tlsk.FixedTime, Rand: wire.NewRand(11), ClientAuth: s.auth, CipherSuites: s.sSuites, PreferServerCipherSuites: s.preferServer, SessionTicketsDisabled: s.ticketsOff}
+	cfg := &gmtls.Config{Time: tlsk.FixedTime, Rand: wire.NewRand(11), ClientAuth: s.auth, CipherSuites: s.sSuites, PreferServerCipherSuites: s.preferServer, SessionTicketsDisabled: s.ticketsOff, DynamicRecordSizingDisabled: s.noDyn}
 	if s.auth >= gmtls.VerifyClientCertIfGiven {
 		cfg.ClientCAs = p.Roots
 		if s.client != cliGM {
@@ -240,7 +244,7 @@ func serverConfig(s scenario, p *tlsk.PKI) *gmtls.Config {
 var staple = []byte("stapled OCSP response (opaque to the handshake)")
 
 func clientConfig(s scenario, p *tlsk.PKI, kl *keyLog) *gmtls.Config {
-	cfg := &gmtls.Config{Time: tlsk.FixedTime, Rand: wire.NewRand(22), ServerName: tlsk.ServerName, CipherSuites: s.cSuites, KeyLogWriter: kl}
+	cfg := &gmtls.Config{Time: tlsk.FixedTime, Rand: wire.NewRand(22), ServerName: tlsk.ServerName, CipherSuites: s.cSuites, KeyLogWriter: kl, DynamicRecordSizingDisabled: s.noDyn}
 	if s.client == cliGM {
 		cfg.GMSupport = &gmtls.GMSupport{}
 		cfg.RootCAs = p.Roots
@@ -621,6 +625,11 @@ func dataUnit(suite uint16, tlsMode bool, depth int, part, parts int) harness.Un
 			s := scenario{mode: modeGM, client: cliGM, cSuites: []uint16{suite}}
 			if tlsMode {
 				s = scenario{mode: modeTLS, client: cliStd, vers: 0x0303}
+			}
+			runScenario(c, s, app, "data")
+			s.noDyn = true
+			if tlsMode {
+				s.client = cliTLS // both ends the library, so that both writers use fixed-size records
 			}
 			runScenario(c, s, app, "data")
 		}
